@@ -25,11 +25,21 @@ def run_property(prop: str, tier: str, repo: str, overlay=None, write=True, quie
     mod.run(ctx)
     if quiet:
         return ctx
+    bcode = 0
+    if tier == "thorough" and overlay is None:
+        from . import battery
+
+        bcode, summary = battery.run(prop, repo, ctx)
+        ctx.extra["sensitivity_battery"] = summary
+        ctx.samples.extend({"battery_edit": d["name"], "status": d["status"], "rules": d["rules"]} for d in summary["details"][:6])
     cmd = f"./check {prop} --tier {tier}"
     code = finish(
         ctx, t0, getattr(mod, "LEVEL", "other"), mod.EXPLANATION, mod.TRUSTED, cmd,
         seed=int(os.environ.get("VERIF_SEED", "0") or 0), write=write,
     )
+    if bcode and not code:
+        print(f"ANALYSIS-ERROR property={prop}: sensitivity battery failed (a rule did not fire on its seeded edit, or a twin fired)")
+        code = 2
     return code, ctx
 
 
@@ -58,12 +68,6 @@ def main(argv=None):
             print(f"replay: {want['rule']} {want['function']} no longer fires on the current tree")
             return 0
         code, ctx = run_property(prop, args.tier, args.repo, write=not args.no_evidence)
-        if args.tier == "thorough":
-            from . import battery
-
-            bcode = battery.run(prop, args.repo, ctx)
-            if bcode:
-                return bcode
         return code
     except AnalysisError as exc:
         print(f"ANALYSIS-ERROR property={prop}: {exc}")
